@@ -1,11 +1,11 @@
 SPECIFICATION Spec
-CONSTANTS MaxReq = 4
+CONSTANTS MaxReq = 3
           Grants <- GrantsSmall
           MaxLeases = 2
           MaxClock = 4
-          MaxReconnects = 0
+          MaxReconnects = 1
           AppActsOnHeld = FALSE
-          QSize = 2
+          QSize = 0
 INVARIANT TypeOK
 INVARIANT NoRequestBeforeFirstLease
 INVARIANT CountWithinGrant
